@@ -6,7 +6,8 @@ from props.graphfacts import conclude, replay, run_graph_property  # noqa: F401
 
 THEOREMS = ["Rva.markLoop_own", "Rva.mark_reachable_owner", "Rva.mem_insNat",
             "Rva.markLoop_closed", "Rva.mark_complete", "Rva.mark_sound", "Rva.body_is_reachable_set",
-            "Rva.markStep_body", "Rva.function_entries_are_call_targets"]
+            "Rva.markStep_body", "Rva.function_entries_are_call_targets", "Rva.called_labels_are_entries",
+            "Rva.entry_iff_called"]
 
 
 def oracle(src, blk, rng):
